@@ -298,6 +298,19 @@ def run_case(case):
                 must_reject(tag, lambda: env.get_agent(sid, True), {"unknown"})
             elif env.get_agent(sid) is not None:
                 raise Violation("lookup", f"{tag}: lenient lookup of absent {sid} returned {env.get_agent(sid)!r}")
+        elif kind_op == "use":
+            # the environment's other services are used in between (random picks, shuffled listings that the caller edits, loops that
+            # are left early, len / in): reading the environment does not change who is in it, nor the joining order
+            lst = env.shuffle()
+            if isinstance(lst, list):
+                lst.reverse()
+                del lst[:1]
+            env.get_random_agent()
+            for _a in env:
+                break
+            next(iter(env), None)
+            len(env)
+            labels.add("other-services-used")
         else:
             raise InvalidCase(op)
         look = ("every", "every", "sparse", "end")[len(case["ops"]) % 4]      # how often the full state is inspected between operations
@@ -343,7 +356,8 @@ def strategy(tier):
                    st.fixed_dictionaries({"op": st.just("add"), "o": st.integers(0, 6), "pos": st.just({"mode": "edge"})}),
                    st.fixed_dictionaries({"op": st.just("remove"), "id": st.integers(0, 4)}),
                    st.fixed_dictionaries({"op": st.just("remove"), "k": st.integers(0, 3)}),
-                   st.fixed_dictionaries({"op": st.just("get"), "id": st.integers(0, 4), "strict": st.booleans()}))
+                   st.fixed_dictionaries({"op": st.just("get"), "id": st.integers(0, 4), "strict": st.booleans()}),
+                   st.just({"op": "use"}))
     from vf.fixtures import near_pow2
     big_op = wone_of(st.fixed_dictionaries({"op": st.just("remove"), "k": st.integers(0, 300)}),
                      st.fixed_dictionaries({"op": st.just("remove"), "k": st.sampled_from([-1, -1, 0])}),
